@@ -127,8 +127,9 @@ class JointBase(Assembly, abc.ABC):
         self.assemblies[0].chop_radial(**kwargs)
 
     def chop_tangential(self, **kwargs):
-        self.assemblies[0].chop_tangential(**kwargs)
-        self.assemblies[1].chop_tangential(**kwargs)
+        # with more than three branches, not all of them are reached from the first two
+        for asm in self.assemblies:
+            asm.chop_tangential(**kwargs)
 
     def set_outer_patch(self, patch_name: str) -> None:
         for asm in self.assemblies:
